@@ -21,6 +21,9 @@
 (* Records with a field `cpu` (CPU milliseconds of the worker process per     *)
 (* channel) are also held against the time bound: every entry must be         *)
 (* <= CpuBudgetMs(Chars(syms)) (AdversarialInputs.tla).                       *)
+(* `chan` names what was observed, in order: it must be TagChannels for a    *)
+(* tag text and TplChannels for a template source (AdversarialInputs.tla):    *)
+(* every Template(..) compilation in every engine mode (plain, debug).        *)
 (* Accepted iff the input belongs to the modelled input space, every          *)
 (* outcome is in ParseOutcomes ("ok" / "tse") and the time bound holds.       *)
 (* One verdict per record.                                                    *)
@@ -45,6 +48,9 @@ InSpace(e) ==
                          /\ \A i \in 1..Len(e.words) : e.words[i] \in LeadWords
                          /\ e.syms = LibSource(e.tag, e.words, e.form, e.wrap)
     [] OTHER          -> TRUE
+\* every configuration the property quantifies over has been observed
+IsSource(e) == e.kind \in {"tpl", "lib"} \/ (e.kind = "pump" /\ e.alpha = "tpl")
+ChannelsOK(e) == e.kind \in {"grow", "raw"} \/ e.chan = (IF IsSource(e) THEN TplChannels ELSE TagChannels)
 BadOutcomes(e) == {i \in 1..Len(e.out) : e.out[i] \notin ParseOutcomes}
 \* exponent k of c ~ n^k between n and 4n is at most 2.5  <=>  c4 / c1 <= 4^2.5 = 32
 GrowthOK(e) == e.kind = "grow" => e.c4 <= 32 * e.c1
@@ -53,6 +59,7 @@ TimeOK(e) == "cpu" \in DOMAIN e => \A i \in 1..Len(e.cpu) : e.cpu[i] <= CpuBudge
 
 Verdict(e) ==
   IF ~InSpace(e) THEN "bad:input_space"
+  ELSE IF ~ChannelsOK(e) THEN "bad:channels"
   ELSE IF BadOutcomes(e) # {} THEN "bad:outcome_" \o ToString(CHOOSE i \in BadOutcomes(e) : TRUE)
   ELSE IF ~GrowthOK(e) THEN "bad:growth"
   ELSE IF ~TimeOK(e) THEN "bad:time"
